@@ -297,8 +297,12 @@ func runReverseFormat(c *fw.Ctx) {
 		}
 		for _, k := range keys {
 			val, err := it.Get([]byte(k))
-			if err != nil || string(val) != want[k] {
-				bad("format|reverse|get", "version %d Get(%q)=(%q,%v), want %q", v, k, val, err, want[k])
+			if err != nil || string(val) != want[k] || val == nil {
+				// (a nil result means "no such key": an encoded empty value must come back empty, not nil)
+				bad("format|reverse|get", "version %d Get(%q)=(%q,nil=%v,%v), want %q", v, k, val, val == nil, err, want[k])
+			}
+			if has, err := it.Has([]byte(k)); err != nil || !has {
+				bad("format|reverse|has", "version %d Has(%q)=(%v,%v) for an encoded key", v, k, has, err)
 			}
 		}
 		c.Obs("reverse_versions_read", 1)
